@@ -28,7 +28,7 @@ ASSUMPTIONS = ["attribute values contain no newline (outside the quantifier)",
 NAMES = ["name", "keep-sorted", "data-x", "a", "A1", "x_y", "ключ", "名前", "é", "n0", "0n", "-lead", "_u", "keep-unique", "Z-9_z"]
 UNQUOTED = ["v", "asc", "a-b_c", "123", "значение", "値", "é1", "-", "_"]
 QCHARS = ["word", " ", ">", "<", "=", "/", "a>b", "<b>", "</block>", "<block x>", "k=v", "é", "日本", "\U0001F600", "(", ")", "[x]", "{y}", "*", "#", "\\",
-          "&quot;", "%", ";", ":", ",", ".", "!", "?", "|", "~", "`", "$", "^", "+", "\t"]
+          "&quot;", "%", ";", ":", ",", ".", "!", "?", "|", "~", "`", "$", "^", "+", "\t", "--", "a--b", "//", "#", "/*"]
 FOREIGN = ["<b>", "</b>", "<a href=x>", "<br/>", "<i>", "<p class=\"c\">", "</p>", "<x-block>", "<b lock>"]
 LOOKALIKES = ["<blockquote>", "</blockquote>", "<block/>", "<Block>", "<BLOCK name=\"x\">", "< block>", "< block name=\"x\">", "<block-x>", "<blocks>",
               "<block name=>", "<block =x>", "<block name=\"x\"y>", "<blockname=\"x\">", "</Block>", "</block x>", "</blocks>",
